@@ -144,3 +144,49 @@ Theorem C05_exception_directives_unprotected : forall st s o b,
   forall st', secured_permission st' true (o_perm o) = None /\ o_exc_only o = true.
 Proof. exact exception_directives_unprotected. Qed.
 Print Assumptions C05_exception_directives_unprotected.
+
+(* from the program text to the table: every entry after a commit is an old entry or comes from a statement of the
+   commit, derived under the commit's final state *)
+Theorem C05_commit_table : forall s batch rt d,
+  In (rt, d) (cs_D (commit s batch)) ->
+  In (rt, d) (cs_D s) \/
+  exists st eo o b, In st batch /\ directive (cs_rs s) st = Some (AView o b) /\ rt = rtag (o_tag o) eo /\
+                    d_perm d = secured_permission (cs_rs (commit s batch)) eo (o_perm o) /\ d_body d = b.
+Proof. exact commit_table. Qed.
+Print Assumptions C05_commit_table.
+
+(* with a policy in force the closed-over permission IS the property's effective permission *)
+Theorem C05_effective_permission_declarative : forall dp eo perm,
+  secured_permission (mkRS true dp) eo perm =
+  match perm with
+  | Some p => strip_npr (Some p)
+  | None => if eo then None else strip_npr dp
+  end.
+Proof. exact secured_permission_declarative. Qed.
+Print Assumptions C05_effective_permission_declarative.
+
+Theorem C05_no_policy_nothing_protected : forall s batch rt d,
+  rs_policy (cs_rs (commit s batch)) = false ->
+  In (rt, d) (cs_D (commit s batch)) -> In (rt, d) (cs_D s) \/ d_perm d = None.
+Proof. exact no_policy_nothing_protected. Qed.
+Print Assumptions C05_no_policy_nothing_protected.
+
+(* mediation at program level: any one-commit program on top of the constructor's state that contains a (kept) policy
+   statement ANYWHERE, any decision table, any request: the tag of a Body/Deco event names a statement of the program and
+   its variant (eo), and if that statement's effective permission (explicit, else the default unless exception variant,
+   marker = none) is p, then Permits p c true precedes the event *)
+Theorem C05_mediation_program : forall irq ier iw batch tb q i e rt c d,
+  let s0 := init_state irq ier iw in
+  let s := commit s0 batch in
+  existsb policy_kept batch = true ->
+  nth_error (fst (run_request s tb q)) i = Some e -> (e = Body rt c \/ e = Deco rt c) ->
+  assocN rt (cs_D s) = Some d ->
+  In (rt, d) (cs_D s0) \/
+  exists st eo o b, In st batch /\ directive (cs_rs s0) st = Some (AView o b) /\ rt = rtag (o_tag o) eo /\
+    forall p, match o_perm o with
+              | Some p' => strip_npr (Some p')
+              | None => if eo then None else strip_npr (rs_defperm (cs_rs s))
+              end = Some p ->
+              exists j, j < i /\ nth_error (fst (run_request s tb q)) j = Some (Permits p c true).
+Proof. exact mediation_program. Qed.
+Print Assumptions C05_mediation_program.
